@@ -185,9 +185,9 @@ Qed.
 
 Lemma code_nodef : forall s, (forall c z, s <> SnClass c z) -> nodef (code_of s) = true.
 Proof.
-  intros s H; destruct s as [g z|g|f g|f|cl z|cl|pre|w d|  |  |  |  |k|  |  |m|m| ]; try reflexivity.
+  intros s H; destruct s as [g z|g|f g|f|cl z|cl|pre|w d|  |  |  |  |k|  |  |  |m|m| ]; try reflexivity.
   - exfalso; eapply H; reflexivity.
-  - destruct d as [[g z]|]; destruct w as [|[]| | | | | | | | | | | ]; reflexivity.
+  - destruct d as [[g z]|]; destruct w as [|[]| | | | | | | | | | | | | | ]; reflexivity.
   - destruct k; reflexivity.
 Qed.
 
@@ -201,11 +201,11 @@ Theorem snippet_leq : forall c c' s, leq c c' ->
 Proof.
   intros c c' s H. apply leq_inv in H.
   destruct H as (he & he' & fibs & fibs' & cd & cd' & mods & ch & rg & rg' & gl & -> & ->).
-  destruct s as [g z|g|f g|f|cl z|cl|pre|w d|  |  |  |  |k|  |  |m|m| ].
+  destruct s as [g z|g|f g|f|cl z|cl|pre|w d|  |  |  |  |k|  |  |  |m|m| ].
   5: { (* SnClass: DeclareClass sets the pending definition before DefineClass takes it *)
        cbn. repeat split. }
   6: { (* SnSyntax *) cbn. split; [reflexivity | split; [repeat split | intros Hf; discriminate Hf]]. }
-  16: { (* SnReset *) cbn. unfold m_reset, m_reset_stack; cbn.
+  17: { (* SnReset *) cbn. unfold m_reset, m_reset_stack; cbn.
         destruct fibs, fibs'; cbn; (split; [reflexivity | split; [repeat split | intros Hf; discriminate Hf]]). }
   all: match goal with |- context [m_snippet _ ?s] =>
          assert (Hn : nodef (code_of s) = true) by (apply code_nodef; intros; discriminate);
